@@ -42,7 +42,7 @@ func c02Years(c *ctx) {
 			f["terms"] = terms
 			nm := [][]int{}
 			for _, r := range t {
-				j := float64(r[3]) // noon JD of the first day = its JDN
+				j := float64(r[3])         // noon JD of the first day = its JDN
 				e0 := libElongDeg(j - 0.5) // 00:00 of the first day
 				e1 := libElongDeg(j + 0.5) // 00:00 of the next day
 				// independent new moon (Meeus ch. 49) nearest to the first day, as a UTC+8 instant
